@@ -72,4 +72,39 @@ Section BlockAlg.
     - intros x i Hi. destruct (Nat.ltb i (ran A)); ring.
     - intros y j Hj. destruct (Nat.ltb j (dom A)); ring.
   Qed.
+  Lemma fwd_add2 (A : linop) (v p q : vec) i : wf A -> (forall t, (t < dom A)%nat -> v t = p t + q t) -> (i < ran A)%nat ->
+    fwd A v i = fwd A p i + fwd A q i.
+  Proof.
+    intros (LA & EA & _ & _) Hv Hi.
+    rewrite (EA v (fun t => k1 * p t + k1 * q t)); [|intros t Ht; rewrite (Hv t Ht); ring|exact Hi].
+    rewrite (LA k1 k1 p q i Hi). ring.
+  Qed.
+
+  (* the full 2 x 2 product, forward action:
+     [[A, B], [C, D]] [[E, F], [G, H]] = [[A E + B G, A F + B H], [C E + D G, C F + D H]] *)
+  Lemma block_product_2x2 (A B C D E F G H : linop) : wf A -> wf B -> wf C -> wf D ->
+    dom A = ran E -> dom C = ran E -> dom B = ran G -> dom D = ran G -> dom E = dom G -> ran A = ran B -> ran C = ran D ->
+    forall x i, (i < ran A + ran C)%nat ->
+      fwd (comp (vstack (hstack A B) (hstack C D)) (vstack (hstack E F) (hstack G H))) x i
+      = fwd (vstack (hstack (lsum (comp A E) (comp B G)) (lsum (comp A F) (comp B H)))
+                    (hstack (lsum (comp C E) (comp D G)) (lsum (comp C F) (comp D H)))) x i.
+  Proof.
+    intros WA WB WC WD HAE HCE HBG HDG HEG HAB HCD x i Hi.
+    cbn [comp vstack hstack lsum dom ran fwd adj].
+    set (x2 := fun j => x (dom E + j)%nat).
+    assert (Hx2 : (fun j => x (dom G + j)%nat) = x2) by (unfold x2; rewrite HEG; reflexivity). rewrite Hx2.
+    assert (S1 : forall X : linop, dom X = ran E -> forall t, (t < dom X)%nat ->
+                 (if Nat.ltb t (ran E) then fwd E x t + fwd F x2 t else fwd G x (t - ran E)%nat + fwd H x2 (t - ran E)%nat) = fwd E x t + fwd F x2 t).
+    { intros X HX t Ht. destruct (Nat.ltb_spec t (ran E)); [reflexivity|lia]. }
+    assert (S2 : forall (X Y : linop), dom X = ran E -> dom Y = ran G -> forall t, (t < dom Y)%nat ->
+                 (if Nat.ltb (dom X + t) (ran E) then fwd E x (dom X + t)%nat + fwd F x2 (dom X + t)%nat
+                  else fwd G x (dom X + t - ran E)%nat + fwd H x2 (dom X + t - ran E)%nat) = fwd G x t + fwd H x2 t).
+    { intros X Y HX HY t Ht. rewrite HX. destruct (Nat.ltb_spec (ran E + t) (ran E)); [lia|].
+      replace (ran E + t - ran E)%nat with t by lia. reflexivity. }
+    destruct (Nat.ltb_spec i (ran A)) as [Hlt|Hge].
+    - rewrite (fwd_add2 A _ (fwd E x) (fwd F x2) i WA (S1 A HAE) Hlt).
+      rewrite (fwd_add2 B _ (fwd G x) (fwd H x2) i WB (S2 A B HAE HBG) ltac:(lia)). ring.
+    - rewrite (fwd_add2 C _ (fwd E x) (fwd F x2) (i - ran A) WC (S1 C HCE) ltac:(lia)).
+      rewrite (fwd_add2 D _ (fwd G x) (fwd H x2) (i - ran A) WD (S2 C D HCE HDG) ltac:(lia)). ring.
+  Qed.
 End BlockAlg.
